@@ -483,8 +483,18 @@ func (r *hcRun) stage1(b []hcStep) {
 			t := c.time(s.T)
 			if si == reopenAt && len(chunks) > 0 && !cut {
 				// a second Appender() on the open, non-empty chunk must reconstruct the appender state
-				// from the stored samples (Chunk.Appender contract)
+				// from the stored samples (Chunk.Appender contract); half of the time the chunk is first
+				// reloaded from a copy of its bytes, as after a restart
 				var err error
+				if c.rnd.Intn(2) == 0 {
+					last := chunks[len(chunks)-1]
+					cp, ferr := chunkenc.FromData(last.Encoding(), append(make([]byte, 0, len(last.Bytes())+64), last.Bytes()...))
+					if ferr != nil {
+						r.other("infra", "FromData: %v", ferr)
+						return
+					}
+					chunks[len(chunks)-1] = cp
+				}
 				if app, err = chunks[len(chunks)-1].Appender(); err != nil {
 					r.other("reopen", "Appender() on a non-empty chunk: %v", err)
 					return
@@ -739,11 +749,6 @@ func (r *hcRun) stage2(b []hcStep, dir string) {
 	mint, maxt := db.Head().MinTime(), db.Head().MaxTime()
 	if err := db.CompactHead(tsdb.NewRangeHead(db.Head(), mint, maxt)); err != nil {
 		sig := "compact-err"
-		for _, s := range b {
-			if s.H != nil && s.H.Hi == "G" && s.H.St && strings.Contains(err.Error(), "schema change") {
-				sig = "compact-err:gauge-chunk-with-stale-marker" // KF-C11-1
-			}
-		}
 		if r.mode == "C11" {
 			r.other(sig, "CompactHead failed, the appended histograms cannot be read from a block: %v", err)
 		}
